@@ -94,8 +94,9 @@ func (n *Node) setPath(paths ...string) {
 }
 
 func (n *Node) validatePath() error {
-	invalidChars := "/" // NOTE: ディレクトリ名に含めてはまずそうなものをここに追加する
-	if strings.ContainsAny(n.name, invalidChars) {
+	invalidChars := "/\x00" // NOTE: ディレクトリ名に含めてはまずそうなものをここに追加する
+	// "", "." and ".." are not names of their own: path.Join drops or resolves them lexically, so fs.ValidPath below never sees them.
+	if strings.ContainsAny(n.name, invalidChars) || n.name == "" || n.name == "." || n.name == ".." {
 		return fmt.Errorf("invalid node name: %s", n.name)
 	}
 	if !fs.ValidPath(n.path()) {
